@@ -373,6 +373,57 @@ def likelihood_terms(S, N, pattern, policy, batch):
             S.check_concrete(v is not NAN, "no NaN in the output")
 
 
+def mt_likelihood_terms(S, n, t, pattern, policy, inter):
+    """MultitaskGaussianLikelihood.expected_log_prob / log_marginal with NaNs PER (point, task) entry, distribution stored interleaved
+       or task-major: 'fill' gives one number per point (the sum over that point's observed tasks), 'mask' one number per observed
+       entry (row by row) - each equal to the usual term of that entry"""
+    from gpytorch.distributions import MultitaskMultivariateNormal
+    from symten import sym_sqrt
+    from symten.ops import s_clamp_min
+    pat = np.array([[bool(int(c)) for c in row] for row in pattern.split("|")])
+    assert pat.shape == (n, t)
+    N = n * t
+    mean = S.randn(n, t); Ms = S.sym_tensor(mean, "m")
+    Gs, Gc = S.factor("g", N)
+    Cst = Gs @ Gs.T  # covariance in the STORED layout
+    C = Gc @ Gc.T
+    S.put(C, Cst)
+    y = S.randn(n, t)
+    Y = _sym_with_nan(S, y, "y", pat)
+    lik = gpytorch.likelihoods.MultitaskGaussianLikelihood(num_tasks=t, rank=0)
+    declare_params(S, lik, "lik_", scale=0.3)
+    pos = (lambda i, a: i * t + a) if inter else (lambda i, a: a * n + i)
+    with S.mode():
+        tn = as_sym_arr(SH.get(lik.task_noises)).reshape(-1)
+        gn = as_sym_arr(SH.get(lik.noise)).reshape(-1)[0]
+        d = MultitaskMultivariateNormal(mean, C, interleaved=inter)
+        with gpytorch.settings.observation_nan_policy(policy):
+            elp = S.must_not_raise("multitask expected_log_prob under %s" % policy, lambda: lik.expected_log_prob(y, d))
+            lm = S.must_not_raise("multitask log_marginal under %s" % policy, lambda: lik.log_marginal(y, d))
+    E, Lm = as_sym_arr(SH.get(elp)), as_sym_arr(SH.get(lm))
+    def e_term(i, a):
+        v, r = Cst[pos(i, a), pos(i, a)], tn[a] + gn
+        return (((Y[i, a] - Ms[i, a]) * (Y[i, a] - Ms[i, a]) + v) / r + sym_log(r) + Sym.const(LOG2PI)) * Sym.const(-0.5)
+    def l_term(i, a):
+        sv = s_clamp_min(Cst[pos(i, a), pos(i, a)] + tn[a] + gn, Sym.const(1e-8))
+        return -((Y[i, a] - Ms[i, a]) * (Y[i, a] - Ms[i, a])) / (sv * Sym.const(2.0)) - sym_log(sym_sqrt(sv)) - Sym.const(math.log(math.sqrt(2 * math.pi)))
+    obs = [(i, a) for i in range(n) for a in range(t) if not pat[i, a]]
+    for name, T, f in (("expected_log_prob", E, e_term), ("log_marginal", Lm, l_term)):
+        if policy == "fill":
+            if not S.check_concrete(T.shape == (n,), "multitask %s shape under fill" % name, str(T.shape)):
+                continue
+            for i in range(n):
+                ref = sum((f(i, a) for a in range(t) if not pat[i, a]), Sym.const(0.0))
+                S.prove_eq(np.array([T[i]], dtype=object), np.array([ref], dtype=object), "multitask %s[%d] (fill, %s) = sum over the point's observed tasks" % (name, i, "interleaved" if inter else "task-major"))
+        else:
+            if not S.check_concrete(T.shape == (len(obs),), "multitask %s shape under mask" % name, str(T.shape)):
+                continue
+            for k, (i, a) in enumerate(obs):
+                S.prove_eq(np.array([T[k]], dtype=object), np.array([f(i, a)], dtype=object), "multitask %s entry (%d,%d) (mask, %s)" % (name, i, a, "interleaved" if inter else "task-major"))
+        for v in T.reshape(-1):
+            S.check_concrete(v is not NAN, "no NaN in the output")
+
+
 def scenarios(tier, seed):
     out = []
     def add(fn, **p):
@@ -397,6 +448,13 @@ def scenarios(tier, seed):
         add("likelihood_terms", N=3, pattern="000", policy=policy, batch=0)
         add("likelihood_terms", N=3, pattern="010|001", policy=policy, batch=2)
         add("likelihood_terms", N=2, pattern="10|00", policy=policy, batch=2)
+    for inter in (True, False):
+        for policy in ("mask", "fill"):
+            add("mt_likelihood_terms", n=3, t=2, pattern="00|10|01", policy=policy, inter=inter)
+    if tier != "quick":
+        for inter in (True, False):
+            add("mt_likelihood_terms", n=2, t=3, pattern="010|100", policy="mask", inter=inter)
+            add("mt_likelihood_terms", n=2, t=2, pattern="00|00", policy="mask", inter=inter)
     for pat in (["01|10", "00|10"] if tier == "quick" else ["01|10", "00|10", "10|00", "011|100", "010|000", "001|010|100"]):
         add("exact_batched", n=len(pat.split("|")[0]), m=1, pattern=pat, cfg={})
     add("exact_batched", n=2, m=2, pattern="10|01", cfg={"fpv": True})
